@@ -172,7 +172,27 @@ def special_forms_block(rep):
         ("list-subclass->list[str]", IntList, List[str]),
         ("KeysView[int]->KeysView[str]", typing.KeysView[int], typing.KeysView[str]),
         ("Awaitable[int]->Awaitable[str]", typing.Awaitable[int], typing.Awaitable[str]),
+        ("tuple-subclass->tuple[()]", Pair, Tuple[()]), ("tuple->tuple[()]", tuple, Tuple[()]), ("tuple[int]->tuple[()]", Tuple[int], Tuple[()]),
     ]
+    # PEP 695 aliases (Python 3.12 syntax, compiled here so that this file still parses elsewhere)
+    try:
+        ns = {}
+        exec("type Box[T] = list[T]\ntype Pairs[K, V] = dict[K, V]", ns)  # noqa: S102
+        Box, Pairs = ns["Box"], ns["Pairs"]
+        refuse += [("alias Box[int]->Box[str]", Box[int], Box[str]), ("alias Pairs[str,int]->Pairs[str,str]", Pairs[str, int], Pairs[str, str]),
+                   ("alias Box[int]->list[str]", Box[int], List[str])]
+        accept = [("alias Box[int]->Box[int]", Box[int], Box[int]), ("tuple[()]->tuple[()]", Tuple[()], Tuple[()])]
+    except SyntaxError:
+        accept = [("tuple[()]->tuple[()]", Tuple[()], Tuple[()])]
+    for label, src, dst in accept:
+        Src = make_dataclass("Src", [("x", src)])
+        Dst = make_dataclass("Dst", [("x", dst)])
+        try:
+            conv.ConversionRetort().get_converter(Src, Dst)
+        except Exception as e:  # noqa: BLE001
+            rep.violation(f"special-form:{label}:{type(e).__name__}", "property-violated",
+                          {"what": f"get_converter for a field {src} -> {dst} of EQUAL types raises {type(e).__name__}: {str(e)[:100]}",
+                           "src": str(src), "dst": str(dst)})
     wrappers = [("field", lambda t: t), ("list", lambda t: List[t]), ("dict-value", lambda t: Dict[str, t]), ("optional", lambda t: Optional[t])]
     n = 0
     for label, src, dst in refuse:
